@@ -267,7 +267,6 @@ Print Assumptions C17_toFlags_denotes_hopts.
    order of today's mapAnnotations (api.body last, finding 1714) and for the listed order alike (C17_coded_refines_table_1714).
    Check 1704 runs the transcription on every 1701 case against both converters, 1705 its response side against the final http.Response. *)
 From DG Require Import HttpMapCoded HttpMapCodedProofs.
-From Coq Require Import Permutation.
 
 Theorem C17_coded_refines_table :
   forall (o : hopts) (rq : request) (conv_text : tdesc -> list Z -> option tval) (conv_json : tdesc -> json -> option tval)
@@ -360,11 +359,12 @@ Proof.
 Qed.
 Print Assumptions C17_coded_refines_table_1714.
 
-(* PARTIAL: the composition of the three phases of one struct (mappings, members, owed fields) into the table's struct_result is
-   not proved; this is its full statement (fields and member keys distinct; same set of (id, value) pairs, or both an error).
-   It is tied by check 1704 on every case of every run instead. *)
-Definition same_fields (a b : hres) : Prop :=
-  match a, b with HOk l1, HOk l2 => Permutation l1 l2 | HErr _, HErr _ => True | _, _ => False end.
+(* the composition: for ONE struct (field ids, field names and member keys distinct), the three phases of the code — the
+   handleHttpMappings loop, the body member loop with its skip test, the owed fields at the closing brace (portable: HandleRequires
+   callback; native: j2t_write_unset_fields, field cache, handleUnmatchedFields) — give the table's struct_result: the same set of
+   (id, value) pairs, or both an error.  [rec] is the converter of nested structs, the same on both sides (one level; the levels
+   are tied to each other by check 1704). *)
+From DG Require Import HttpMapCodedStruct.
 Definition C17_coded_struct_refines_table_statement : Prop :=
   forall o rq conv_text conv_json rec n root docroot top fs ms,
   NoDup (map f_id fs) -> NoDup (map f_name fs) -> NoDup (map fst ms) -> Forall valid_req fs ->
@@ -372,6 +372,58 @@ Definition C17_coded_struct_refines_table_statement : Prop :=
               (struct_result o Spec rq conv_text conv_json rec root false fs ms) /\
   same_fields (wres_to_hres (fst (native_struct o rq conv_text conv_json rec rec (S n) docroot top fs ms [])))
               (struct_result o Spec rq conv_text conv_json rec (docroot && top) false fs ms).
+
+Theorem C17_coded_struct_refines_table_portable :
+  forall o rq conv_text conv_json rec fs ms,
+  NoDup (map f_id fs) -> NoDup (map f_name fs) -> NoDup (map fst ms) -> Forall valid_req fs ->
+  forall root n,
+  same_fields (wres_to_hres (portable_struct o rq conv_text conv_json rec rec (S n) root fs ms))
+              (struct_result o Spec rq conv_text conv_json rec root false fs ms).
+Proof. exact portable_struct_refines_table. Qed.
+Print Assumptions C17_coded_struct_refines_table_portable.
+
+(* native: sp == 1 <-> docroot, `top` the argument of doNative; the field cache starts empty and is empty again afterwards *)
+Theorem C17_coded_struct_refines_table_native :
+  forall o rq conv_text conv_json rec fs ms,
+  NoDup (map f_id fs) -> NoDup (map f_name fs) -> NoDup (map fst ms) -> Forall valid_req fs ->
+  forall docroot top n,
+  same_fields (wres_to_hres (fst (native_struct o rq conv_text conv_json rec rec (S n) docroot top fs ms [])))
+              (struct_result o Spec rq conv_text conv_json rec (docroot && top) false fs ms) /\
+  snd (native_struct o rq conv_text conv_json rec rec (S n) docroot top fs ms []) = [].
+Proof.
+  intros o rq ct cj rec fs ms H1 H2 H3 H4 docroot top n. split.
+  - exact (native_struct_refines_table o rq ct cj rec fs ms H1 H2 H3 H4 (docroot && top) docroot top eq_refl n).
+  - apply native_struct_cache.
+Qed.
+Print Assumptions C17_coded_struct_refines_table_native.
+
+Theorem C17_coded_struct_refines_table : C17_coded_struct_refines_table_statement.
+Proof.
+  intros o rq ct cj rec n root docroot top fs ms H1 H2 H3 H4. split.
+  - apply C17_coded_struct_refines_table_portable; assumption.
+  - apply C17_coded_struct_refines_table_native; assumption.
+Qed.
+Print Assumptions C17_coded_struct_refines_table.
+
+(* response side, one struct: the field loop = the fold of the table's resp_field.  Unless some field's mappings fail fatally, the JSON
+   members written are exactly the fields the table puts in the body, the response object receives exactly the table's deliveries
+   (a field at most one, to its first succeeding target), the Set-Cookie lines are the earlier ones plus one per cookie delivery; a field
+   is never both in the body and delivered (it is neither exactly for the table's "dropped" / "swallowed" outcomes). *)
+Theorem C17_coded_response_struct_refines_table :
+  forall o l names r,
+  t2j_fields_loop o l names r =
+    (if existsb (r_err o) l then TSErr
+     else TS (names ++ map (fun p => f_name (fst p)) (filter (r_body o) l)) (fold_left (r_deliver o) l r)) /\
+  rs_cookies (fold_left (r_deliver o) l r) = rs_cookies r ++ flat_map (r_cookie o) l /\
+  (forall f text, match resp_field o f text with
+                  | RODelivered _ _ _ => in_json_body (resp_field o f text) = false
+                  | ROBody => forall k key v, resp_field o f text <> RODelivered k key v
+                  | _ => True
+                  end).
+Proof.
+  intros o l names r. split; [apply t2j_fields_loop_refines_table|]. split; [apply fold_deliver_cookies | intros; apply resp_field_exclusive].
+Qed.
+Print Assumptions C17_coded_response_struct_refines_table.
 
 (* the transcription computes: a request whose first listed source (query) is empty and whose second (header) has a value;
    api.body listed first but consulted last by today's mapAnnotations; a nested no_body_struct whose second field has no value *)
